@@ -386,7 +386,10 @@ theorem C11_gen_alignment_facts :
     Gen.C11.facts.lookup "trace_from_strings.gapTest" = some "Eq '-'" ∧ Gen.C11.facts.lookup "trace_from_strings.increment" = some "1" ∧
     traceFromStrings [['A']] = .error .valueError ∧ traceFromStrings [['A'], ['-']] = .ok [[some 0, none]] ∧
     Gen.C11.facts.lookup "get_codes.dtype" = some "np.int64" ∧ Gen.C11.facts.lookup "get_codes.gapFill" = some "np.int64(-1)" ∧
-    Gen.C11.facts.lookup "get_symbols.alphabet" = some "alignment.sequences[i].get_alphabet()|per-row" ∧
+    Gen.C11.facts.lookup "get_symbols.alphabet" = some "alignment.sequences[i].get_alphabet()|per-row" := by decide
+
+/-- identity / terminal gaps part of the alignment.py facts (see `C11_gen_alignment_facts`) -/
+theorem C11_gen_alignment_guards :
     Gen.C11.facts.lookup "get_sequence_identity.modes" = some "'all','not_terminal','shortest'" ∧
     Gen.C11.facts.lookup "get_pairwise_sequence_identity.modes" = some "'all','not_terminal','shortest'" ∧
     Gen.C11.facts.lookup "get_sequence_identity.guards" = some "stop LtE start ValueError" ∧
@@ -397,7 +400,10 @@ theorem C11_gen_alignment_facts :
     -- stop = start: identity refuses (`<=`), remove_terminal_gaps returns the empty alignment (`<`)
     findTerminalGaps 2 [[some 0, none], [none, some 0]] = .ok (1, 1) ∧
     identity [[0], [0]] [[some 0, none], [none, some 0]] .notTerminal = .error .valueError ∧
-    removeTerminalGaps 2 [[some 0, none], [none, some 0]] = .ok [] ∧
+    removeTerminalGaps 2 [[some 0, none], [none, some 0]] = .ok [] := by decide
+
+/-- score / find_terminal_gaps / indexing / FASTA part of the facts (see `C11_gen_alignment_facts`) -/
+theorem C11_gen_alignment_score :
     Gen.C11.facts.lookup "score.lookup" = some "column[i],column[j]" ∧
     Gen.C11.facts.lookup "score.innerRange" = some "range(i + 1, codes.shape[0])" ∧
     Gen.C11.facts.lookup "score.gapOrder" = some "gap_ext,gap_open" ∧ Gen.C11.facts.lookup "score.raises" = some "TypeError" ∧
